@@ -23,7 +23,21 @@ pub struct Ca {
 }
 
 impl Ca {
+    /// Like [`Ca::try_new`], retried with fresh randomness: the repository's RCAC/ICAC
+    /// generators draw an unconstrained random serial number and refuse about one draw in 250
+    /// themselves (recorded as an observation in DESIGN.md).
     pub fn new<C: Crypto>(crypto: &C, fabric_id: u64, with_icac: bool, ipk_seed: u8) -> Result<Self, Error> {
+        let mut last = None;
+        for _ in 0..16 {
+            match Self::try_new(crypto, fabric_id, with_icac, ipk_seed) {
+                Ok(ca) => return Ok(ca),
+                Err(e) => last = Some(e),
+            }
+        }
+        Err(last.unwrap())
+    }
+
+    pub fn try_new<C: Crypto>(crypto: &C, fabric_id: u64, with_icac: bool, ipk_seed: u8) -> Result<Self, Error> {
         let mut buf = [0u8; MAX_CERT_TLV_AND_ASN1_LEN];
         let mut g = RcacGenerator::new(&mut buf);
         let (rkey, rcac) = g.generate(crypto, fabric_id, VALID_FOREVER)?;
